@@ -121,12 +121,14 @@ PROPS = {
         "quick": [
             {"harness": "H_C04_q", "cases": list(range(5)), "scale": SC},
             {"harness": "H_C04_tear", "cases": list(range(5)), "scale": SC},
+            {"harness": "H_C04_reuse", "scale": SC},
         ],
         "thorough": [
+            {"harness": "H_C04_reuse", "scale": SC},
             {"harness": "H_C04_t", "cases": list(range(5)), "scale": SC},
             {"harness": "H_C04_tear", "cases": list(range(5)), "scale": SC},
         ],
-        "covers": {"quick": ["C04.done", "C04.crash-during-recovery", "C04.epoch1-torn-write"]},
+        "covers": {"quick": ["C04.done", "C04.crash-during-recovery", "C04.epoch1-torn-write", "C04r.done", "C04r.newest-segment-has-lower-id-than-an-older-one"]},
         "bounds": {"quick": "2 keys; epoch 1 = prefix + 1 operation cut by a crash at any mutating FS call (torn writes included); epoch 2 = recovering Open cut by a second crash at any of its FS calls, or not; epoch 3 = 1 acknowledged operation then process death; final recovery and a further recovery from the same image",
                    "thorough": "2 acknowledged operations in epoch 3"},
         "assumptions": COMMON_ASSUME + ["process-crash model as C03"],
